@@ -12,6 +12,13 @@ use num_bigint::BigUint;
 use num_traits::Zero;
 use serde_json::{json, Value};
 
+pub fn isolated_c05(_t: Tier, i: usize) -> bool {
+    two_caller_run_c05(i) && i % 2 == 0
+}
+fn two_caller_run_c05(i: usize) -> bool {
+    (3 + INTEROP..3 + INTEROP + 24).contains(&i)
+}
+
 pub fn runs_c05(t: Tier) -> usize {
     t.pick(640, 40000)
 }
@@ -127,8 +134,11 @@ pub fn run_c05(p: &mut Prng, t: Tier, i: usize, sink: &mut Sink) {
         sink.done(w);
         return;
     }
-    if (3 + INTEROP..3 + INTEROP + 20).contains(&i) {
-        // two encryptors with different keys on two caller threads, interleaved at the RNG seam
+    if two_caller_run_c05(i) {
+        // Two parties with different keys on two simulated caller threads, in a worker process of
+        // their own. Shapes: both encryptions cold; one recipient already used (hit beside miss);
+        // the two decryptions side by side after one of them was done before (compressed C1 in
+        // half of the runs: the point decoder's square root path).
         let (la, lb) = (p.range(1, 80), p.range(1, 80));
         let (ma, mb) = (msg_of_len(p, la), msg_of_len(p, lb));
         let (order, comp) = (*p.pick(&ORDERS), p.chance(1, 2));
@@ -138,12 +148,29 @@ pub fn run_c05(p: &mut Prng, t: Tier, i: usize, sink: &mut Sink) {
         for op in ops_a.into_iter().chain(ops_b) {
             w.exec(op);
         }
-        w.exec(par(ea, eb, &par_order(p)));
-        for pfx in ["pa", "pb"] {
-            if w.slots.contains_key(&format!("{pfx}.ct")) {
-                w.exec(dec_op(pfx, order, comp));
-                w.exec(json!({"op":"assert.eq","a":format!("{pfx}.pt"),"b":format!("{pfx}.msg"),"property":"C05","oracle":"O5.1-round-trip","entry":"sm2.encrypt+decrypt","class":"round-trip","what":"decrypt(encrypt(M)) != M"}));
+        let rt = |w: &mut World, pfx: &str| {
+            w.exec(json!({"op":"assert.eq","a":format!("{pfx}.pt"),"b":format!("{pfx}.msg"),"property":"C05","oracle":"O5.1-round-trip","entry":"sm2.encrypt+decrypt","class":"round-trip","what":"decrypt(encrypt(M)) != M"}));
+        };
+        match i % 3 {
+            0 => {
+                w.exec(par(ea, eb, &par_order(p)));
             }
+            1 => {
+                w.exec(ea.clone());
+                w.exec(par(ea, eb, &par_order(p)));
+            }
+            _ => {
+                w.exec(ea);
+                w.exec(eb);
+                if w.slots.contains_key("pa.ct") {
+                    w.exec(dec_op("pa", order, comp));
+                }
+            }
+        }
+        if w.slots.contains_key("pa.ct") && w.slots.contains_key("pb.ct") {
+            w.exec(par(dec_op("pa", order, comp), dec_op("pb", order, comp), &par_order(p)));
+            rt(&mut w, "pa");
+            rt(&mut w, "pb");
         }
         sink.done(w);
         return;
@@ -165,6 +192,9 @@ pub fn run_c05(p: &mut Prng, t: Tier, i: usize, sink: &mut Sink) {
         let encryptor = if p.chance(3, 10) { "ref" } else { "lib" };
         let pfx = format!("s{k}");
         let mut ops = base_ops(p, &pfx, &msg, order, comp, encryptor);
+        if p.chance(1, 5) {
+            ops.extend(damaged_first(p, &dec_op(&pfx, order, comp), "ct", 33 + 32 + 1));
+        }
         ops.push(dec_op(&pfx, order, comp));
         // history: the same key pair is used again, possibly in another configuration
         if p.chance(1, 4) {
@@ -360,6 +390,22 @@ pub fn run_c06(p: &mut Prng, _t: Tier, i: usize, sink: &mut Sink) {
     // misdelivery: the bystander's ciphertext, the bystander's key
     branches.push(vec![fault("a.ct", "copy", json!({"from":"b.ct"})), dec()]);
     branches.push(vec![fault("a.d", "copy", json!({"from":"b.d"})), dec()]);
+    // the same ciphertext in other framings, delivered to the RAW decryption API: the GM/T 0009
+    // DER form, text encodings, DER wrappings of the three components
+    {
+        let (c2a, c2b, c3a, c3b) = (c2_lo, c2_lo + c2_len, c3_lo, c3_lo + 32);
+        let mut parts = vec![(0usize, c3_lo.min(c2_lo)), (c2a, c2b), (c3a, c3b)];
+        parts.sort();
+        let mut forms = reframings(&ct, &parts);
+        if let Some(d) = crate::refmodel::der::sm2_cipher_to_der(&ct, crate::ops_sm2::model(order).unwrap().0, comp) {
+            forms.push(("gmt0009-der", d));
+        }
+        for (name, bytes) in forms {
+            w.bump("fault.reframed");
+            w.bump(&format!("probe.reframed.{name}"));
+            branches.push(vec![set("a.ct", &bytes), dec()]);
+        }
+    }
     // wrong framing at the receiver: other order / other C1 form
     branches.push(vec![dec_op("a", ORDERS[(i + 1) % 2], comp)]);
     branches.push(vec![dec_op("a", order, !comp)]);
